@@ -40,7 +40,7 @@ PROPS = {
                ('u_weval', [r'^WildcardEq::eval$', r'^Ref::<PartialEq>::eq$']),
                ('u_feval', [r'^(Filter|Or|And|Term|Parens|Has|Missing|Cmp)::eval$'])],
         kani=[],
-        witness='filter',
+        witness='filter', enums=['enum:wildcard-cycles'],
         design_ref='DESIGN.md section 4, C09',
         level_text=('Proof (Verus, unbounded): panic-freedom and termination of the filter lexer and parser (and the Zinc '
                     'scanner/scalar parsers they reuse) for all byte strings; recursion through parentheses bounded by the '
